@@ -69,12 +69,22 @@ def decide_nonneg(t):
     t0 = t
     t = _floor_div_rewrite(t)
     if t != t0:
-        # q >= 0 (not >= 1) and r >= 0: test coefficients directly
-        items = sym.poly_items(t)
-        if all(k >= 0 for _, k in items) and all(all(a[0] == "sym" for a in m) for m, _ in items):
-            return "proved", "with x = c*floor(x/c) + (x mod c): all coefficients of %s are non-negative" % sym.show(t)
-        pos = {m: k for m, k in items}
-        # allow a negative constant covered by dimensions >= 1 only through the standard path below
+        # x = c*q + r with q >= 0, 0 <= r, and x >= 1: split on q = 0 (then r >= 1) / q >= 1
+        qs = sorted({a for a in sym.atoms_top(t) if a[0] == "sym" and a[1].startswith("floor(")} |
+                    {a for m, _ in sym.poly_items(t) for a in m if a[0] == "sym" and a[1].startswith("floor(")}, key=repr)
+        def nonneg_coeffs(u):
+            items = sym.poly_items(u)
+            return all(k >= 0 for _, k in items) and all(all(a[0] == "sym" for a in m) for m, _ in items)
+        def cases(u, rest):
+            if not rest:
+                return nonneg_coeffs(u)
+            q = rest[0]
+            r = ("sym", q[1].replace("floor(", "(").replace("/", " mod ", 1))
+            u_pos = sym.subst(u, {q: sym.add(I(1), ("sym", q[1] + "'"))})
+            u_zero = sym.subst(sym.subst(u, {q: ZERO}), {r: sym.add(I(1), ("sym", r[1] + "'"))})
+            return cases(u_pos, rest[1:]) and cases(u_zero, rest[1:])
+        if len(qs) <= 3 and cases(t, qs):
+            return "proved", "with x = c*floor(x/c) + (x mod c), x >= 1: non-negative in every case (%s)" % sym.show(t)
         t = t0
     c = sym.const_value(t)
     if c is not None:
@@ -163,6 +173,21 @@ def _idx_terms(t, acc):
     return acc
 
 
+def _unscale(it):
+    """idx((T*)p, i) with p a byte pointer -> (idx(p, s*i), s): subscript in the units of p"""
+    from .symexec import pointee_size
+    base = it[1]
+    if base[0] == "cast":
+        s = pointee_size(base[1])
+        inner = base[2]
+        off = ZERO
+        if inner[0] == "addr" and inner[1][0] == "idx":
+            inner, off = inner[1][1], inner[1][2]
+        if s is not None:
+            return ("idx", inner, sym.add(off, sym.mul(I(s), it[2]))), s
+    return it, 1
+
+
 def accesses(effs, loops=None, guards=None):
     """yield (idx term, loops, guards, line, kind) for every subscript in the effect tree"""
     loops = loops or []
@@ -182,7 +207,11 @@ def accesses(effs, loops=None, guards=None):
             terms = [(x["val"], "read")]
         for t, kind in terms:
             for it in _idx_terms(t, []):
-                yield it, list(loops), list(guards), x["l"], kind
+                it2, width = _unscale(it)
+                if width != 1:
+                    # the access covers [s*i, s*i + s): report its last byte
+                    it2 = ("idx", it2[1], sym.add(it2[2], I(width - 1))) if kind != "arg" else it2
+                yield it2, list(loops), list(guards), x["l"], kind
         if e == "loop":
             yield from accesses(x["body"], loops + [x], guards)
         elif e == "while":
